@@ -20,10 +20,10 @@ TERR = "aiomysensors.exceptions.TransportError"
 
 def run(ctx: Ctx, chk) -> None:
     chk.assume("A1", "A3", "A4", "A5", "A7")
-    topic_map(ctx, chk)
-    fifo1(ctx, chk)
-    task_esc(ctx, chk)
-    eea_mqtt(ctx, chk)
+    chk.run_rule(topic_map, ctx)
+    chk.run_rule(fifo1, ctx)
+    chk.run_rule(task_esc, ctx)
+    chk.run_rule(eea_mqtt, ctx)
     rule = "LIFE-1"
     chk.rule(rule, "a task that is cancelled and then awaited does not re-raise CancelledError into the awaiter (protected await, or a body that absorbs cancellation at every suspension point)")
     mc = ctx.cls(MC)
